@@ -48,7 +48,7 @@ DEFAULTS = {
     "thorough": {"budget_s": 900, "chunk": 100, "per_run_wall": 120,
                  "minimise_s": 300},
 }
-REQUIRED_PROBES = ["self_query_same_objects", "other_index_built_in_between", "match_on_tree_position_0", "only_pair_is_0_0", "perm_reverse",
+REQUIRED_PROBES = ["query_buffers_refilled_in_place", "self_query_same_objects", "other_index_built_in_between", "match_on_tree_position_0", "only_pair_is_0_0", "perm_reverse",
                    "perm_random", "perm_identity", "haversine", "kdtree",
                    "unit_string_radius", "duplicates_in_build", "large_build",
                    "empty_answer"]
@@ -119,7 +119,14 @@ def gen_workload(tape):
     w = {}
     big = tape.flag("big", 1, 40)
     n = 300 + tape.choice(4701, "nbig") if big else tape.count(1, 300, "n", (9, 10))
+    if not big and tape.flag("special_n", 1, 12):
+        # sizes around powers of two and their multiples
+        n = tape.pick([255, 256, 257, 258, 511, 512, 513, 514, 771, 1024, 1028, 127, 129],
+                      "nspecial")
+        big = n > 300
     w["build"] = gen_points(tape, n, "b") if not big else None
+    # successive queries may re-fill one pair of coordinate arrays in place
+    w["reuse_query_buffers"] = tape.flag("reuse_qbuf", 1, 3)
     w["big_n"] = n if big else None
     w["big_seed"] = tape.choice(10 ** 6, "bigseed") if big else None
     w["metric"] = tape.pick([None, "minkowski", "haversine"], "metric")
@@ -136,6 +143,8 @@ def gen_workload(tape):
     qs = []
     for _ in range(tape.count(2, 5, "nq", (1, 2))):
         m = tape.count(1, 30, "m", (4, 5))
+        if w["reuse_query_buffers"] and qs:
+            m = qs[0]["n"]             # same length: the buffers can be refilled
         q = {"n": m, "seed_label": None}
         # query points: often near build points so that matches exist
         q["pts_spec"] = [(tape.choice(3, "qk"), tape.choice(10 ** 6, "qa"),
@@ -269,6 +278,7 @@ def run_one(tape, only=None):
     if w["leaf"] is not None:
         kw["leaf_size"] = w["leaf"]
     answers = []
+    qbufs = {}
     nontrivial = False
     with patched((gmod, "np", proxy)), warnings.catch_warnings():
         warnings.simplefilter("ignore")
@@ -311,6 +321,15 @@ def run_one(tape, only=None):
                     if qp is build:
                         probe("self_query_same_objects")
                         pairs, dist = index.query(blat, blon, r=spell)
+                    elif w["reuse_query_buffers"]:
+                        key = len(qp)
+                        if key not in qbufs:
+                            qbufs[key] = (np.empty(key), np.empty(key))
+                        else:
+                            probe("query_buffers_refilled_in_place")
+                        qbufs[key][0][:] = qp[:, 0]
+                        qbufs[key][1][:] = qp[:, 1]
+                        pairs, dist = index.query(qbufs[key][0], qbufs[key][1], r=spell)
                     else:
                         pairs, dist = index.query(qp[:, 0].copy(), qp[:, 1].copy(), r=spell)
                 except Exception as e:  # noqa
